@@ -7,6 +7,8 @@ open Model Proto
 
 def pvoxel : P Voxel := do let i ← pnat; let j ← pnat; let k ← pnat; let s ← pbool; pure ⟨i, j, k, s⟩
 def pvoxels : P (List Voxel) := plist pvoxel
+/-- implementation-output point: components may be `nan` -/
+def pv3o : P (V3 Float) := do let x ← pfo; let y ← pfo; let z ← pfo; pure ⟨x, y, z⟩
 def pmesh : P (List (V3 Float) × List (Nat × Nat × Nat)) := do
   let pts ← plist pv3
   let tris ← plist (do let a ← pnat; let b ← pnat; let c ← pnat; pure (a, b, c))
@@ -22,18 +24,27 @@ def pparts : P (List (List Voxel)) := plist pvoxels
 
 structure AcdArgs where
   maxh : Nat
+  res : Nat
+  pts : List (V3 Float)
+  tris : List (Nat × Nat × Nat)
   origin : V3 Float
   scale : Float
   voxels : List Voxel
   decs : List (Option (CutPlane Float))
 
+/-- the plain arguments of `acd3` / `hulls3` (what is left when the real code panicked): resolution and mesh -/
+def pacdBase : P (Nat × List (V3 Float) × List (Nat × Nat × Nat)) := do
+  let _maxh ← pnat; let res ← pnat; let _fm ← pnat; let _conc ← pf; let _pds ← pnat; let _hds ← pnat
+  let (pts, tris) ← pmesh
+  pure (res, pts, tris)
+
 def pacd : P AcdArgs := do
-  let maxh ← pnat; let _res ← pnat; let _fm ← pnat; let _conc ← pf; let _pds ← pnat; let _hds ← pnat
-  let _mesh ← pmesh
-  let origin ← pv3; let scale ← pf
+  let maxh ← pnat; let res ← pnat; let _fm ← pnat; let _conc ← pf; let _pds ← pnat; let _hds ← pnat
+  let (pts, tris) ← pmesh
+  let origin ← pv3; let scale ← pfo
   let voxels ← pvoxels
   let decs ← plist pdecision
-  pure ⟨maxh, origin, scale, voxels, decs⟩
+  pure ⟨maxh, res, pts, tris, origin, scale, voxels, decs⟩
 
 def ltCoord (a b : Nat × Nat × Nat) : Bool :=
   a.1 < b.1 || (a.1 == b.1 && (a.2.1 < b.2.1 || (a.2.1 == b.2.1 && a.2.2 < b.2.2)))
@@ -48,6 +59,63 @@ def acdOracle (a : AcdArgs) (parts : List (List Voxel)) : String :=
   let surfIn : Std.HashSet (Nat × Nat × Nat) := Std.HashSet.ofList ((a.voxels.filter (·.surf)).map Voxel.coords)
   if parts.flatten.any (fun v => surfIn.contains v.coords && !v.surf) then "fail surface-flag-lowered" else
   if parts.any (·.isEmpty) && a.voxels.length > 0 && false then "fail empty-part" else "pass"
+
+/-! ## Domain and grid sanity (resolution cap, finiteness)
+
+`voxelize(points, indices, resolution, …)` promises `resolution` subdivisions along the axis of the LARGEST extent
+and cubic voxels, i.e. along every axis at most `resolution + 2` voxels (`2 + ⌊resolution·d/r⌋` with `d ≤ r`), a finite
+positive voxel size and a finite origin.  These clauses are judged from the input and the output only. -/
+
+def maxNat (l : List Nat) : Nat := l.foldl max 0
+
+/-- `none`: inside the domain; `some why`: outside (→ `skip why`).  Domain: resolution ≥ 2 (the voxel size is
+`r / (resolution - 1)`), a non-empty index buffer over a non-empty finite point buffer, every index in range and a
+positive largest extent of the point cloud. -/
+def domain3 (res : Nat) (pts : List (V3 Float)) (tris : List (Nat × Nat × Nat)) : Option String :=
+  if res < 2 then some "resolution-below-2" else
+  if pts.isEmpty || tris.isEmpty then some "empty-mesh" else
+  if !(pts.all finite3) then some "input-coordinates-not-finite-numbers" else
+  let n := pts.length
+  if tris.any (fun (a, b, c) => a ≥ n || b ≥ n || c ≥ n) then some "index-out-of-range" else
+  let P := pts.map q3
+  let ext (f : V3 Rat → Rat) : Rat :=
+    match P.map f with
+    | [] => 0
+    | x :: xs => xs.foldl max x - xs.foldl min x
+  if ext (·.x) ≤ 0 && ext (·.y) ≤ 0 && ext (·.z) ≤ 0 then some "all-points-coincide" else none
+
+def finite2 (v : V2 Float) : Bool := FloatIO.isFinite v.x && FloatIO.isFinite v.y
+
+def domain2 (res : Nat) (pts : List (V2 Float)) (edges : List (Nat × Nat)) : Option String :=
+  if res < 2 then some "resolution-below-2" else
+  if pts.isEmpty || edges.isEmpty then some "empty-polyline" else
+  if !(pts.all finite2) then some "input-coordinates-not-finite-numbers" else
+  let n := pts.length
+  if edges.any (fun (a, b) => a ≥ n || b ≥ n) then some "index-out-of-range" else
+  let P := pts.map q2
+  let ext (f : V2 Rat → Rat) : Rat :=
+    match P.map f with
+    | [] => 0
+    | x :: xs => xs.foldl max x - xs.foldl min x
+  if ext (·.x) ≤ 0 && ext (·.y) ≤ 0 then some "all-points-coincide" else none
+
+/-- finiteness + resolution cap; `counts` = number of voxels along each axis (largest index + 1), `org` the origin
+components.  `none` = all clauses hold. -/
+def gridSanity (res : Nat) (org : List Float) (scale : Float) (counts : List Nat) : Option String :=
+  if !(org.all FloatIO.isFinite) then some "fail non-finite origin (nan or inf)" else
+  if !(FloatIO.isFinite scale) then some "fail non-finite voxel scale (nan or inf)" else
+  if q scale ≤ 0 then some "fail nonpositive-scale" else
+  -- the farthest voxel centre `origin + (count-1)·scale` is a finite float as well
+  if !((org.zip counts).all fun (o, c) => FloatIO.isFinite (o + (Float.ofNat c) * scale)) then
+    some "fail non-finite voxel coordinates" else
+  match ((List.range counts.length).zip counts).filter (fun (_, c) => c > res + 2) with
+  | (ax, c) :: _ => some s!"fail resolution-cap-exceeded: {c} voxels along axis {ax} > resolution+2 = {res + 2}"
+  | [] => none
+
+def gridSanity3 (res : Nat) (origin : V3 Float) (scale : Float) (vs : List Voxel) : Option String :=
+  gridSanity res [origin.x, origin.y, origin.z] scale
+    [maxNat (vs.map (·.i + 1)), maxNat (vs.map (·.j + 1)), maxNat (vs.map (·.k + 1))]
+
 
 /-- exact cell membership: point `p` lies in the closed cube of voxel `c` (centre `origin + c*scale`, half side `scale/2`) -/
 def inCell (origin : V3 Rat) (scale : Rat) (c : Nat × Nat × Nat) (p : V3 Rat) (tol : Rat) : Bool :=
@@ -233,46 +301,72 @@ def handler (fn : String) : Option Handler :=
         let x ← pacd
         let parts := acd x.origin x.scale (replayOracle (K := Float)) x.decs x.maxh x.voxels
         pure (fparts parts)) a
-      oracle := fun a o => match run pacd a with
-        | some x => (match o with
-          | "panic" :: _ => "fail panic"
-          | _ => match run pparts o with
-            | some parts => acdOracle x parts
-            | none => "fail unparsable-output")
-        | none => "skip bad-args" }
+      oracle := fun a o => match o with
+        -- a panic leaves no `<voxels> <decisions> ;;` prefix: judge it from the plain arguments
+        | "panic" :: _ => (match run pacdBase a with
+          | some (res, pts, tris) => (match domain3 res pts tris with
+            | some why => s!"skip {why}"
+            | none => "fail panic")
+          | none => "skip bad-args")
+        | _ => match run pacd a with
+          | some x => (match domain3 x.res x.pts x.tris with
+            | some why => s!"skip {why}"
+            | none => match gridSanity3 x.res x.origin x.scale x.voxels with
+              | some bad => bad
+              | none => match run pparts o with
+                | some parts => acdOracle x parts
+                | none => "fail unparsable-output")
+          | none => "skip bad-args" }
   | "voxelize3" => some {
       model := fun _ => some "-"
-      oracle := fun a o => match run (do let _res ← pnat; let fm ← pnat; let m ← pmesh; let cv ← pbool; pure (fm, m, cv)) a with
-        | some (fm, (pts, tris), cv) => (match o with
+      oracle := fun a o => match run (do let res ← pnat; let fm ← pnat; let m ← pmesh; let cv ← pbool; pure (res, fm, m, cv)) a with
+        | some (res, fm, (pts, tris), cv) => (match domain3 res pts tris with
+          | some why => s!"skip {why}"
+          | none => match o with
           | "panic" :: _ => "fail panic"
-          | _ => match run (do let org ← pv3; let sc ← pfo; let vs ← pvoxels; pure (org, sc, vs)) o with
-            | some (org, sc, vs) => voxelizeOracle fm cv pts tris org sc vs
+          | _ => match run (do let org ← pv3o; let sc ← pfo; let vs ← pvoxels; pure (org, sc, vs)) o with
+            | some (org, sc, vs) => (match gridSanity3 res org sc vs with
+              | some bad => bad
+              | none => voxelizeOracle fm cv pts tris org sc vs)
             | none => "fail unparsable-output")
         | none => "skip bad-args" }
   | "voxelize2" => some {
       model := fun _ => some "-"
       oracle := fun a o => match run (do
-          let _res ← pnat; let fm ← pnat; let pts ← plist pv2
-          let edges ← plist (do let a ← pnat; let b ← pnat; pure (a, b)); pure (fm, pts, edges)) a with
-        | some (fm, pts, edges) => (match o with
+          let res ← pnat; let fm ← pnat; let pts ← plist pv2
+          let edges ← plist (do let a ← pnat; let b ← pnat; pure (a, b)); pure (res, fm, pts, edges)) a with
+        | some (res, fm, pts, edges) => (match domain2 res pts edges with
+          | some why => s!"skip {why}"
+          | none => match o with
           | "panic" :: _ => "fail panic"
-          | _ => match run (do let org ← pv2; let sc ← pfo
-                                 let vs ← plist (do let i ← pnat; let j ← pnat; let s ← pbool; pure (i, j, s)); pure (org, sc, vs)) o with
-            | some (org, sc, vs) => voxelize2Oracle fm pts edges org sc vs
+          | _ => match run (do let ox ← pfo; let oy ← pfo; let sc ← pfo
+                                 let vs ← plist (do let i ← pnat; let j ← pnat; let s ← pbool; pure (i, j, s)); pure ((⟨ox, oy⟩ : V2 Float), sc, vs)) o with
+            | some (org, sc, vs) =>
+              (match gridSanity res [org.x, org.y] sc [maxNat (vs.map (·.1 + 1)), maxNat (vs.map (·.2.1 + 1))] with
+              | some bad => bad
+              | none => voxelize2Oracle fm pts edges org sc vs)
             | none => "fail unparsable-output")
         | none => "skip bad-args" }
   | "hulls3" => some {
       model := fun _ => some "-"
-      oracle := fun _ o => match o with
+      oracle := fun a o => match run pacdBase a with
+       | none => "skip bad-args"
+       | some (res, pts, tris) =>
+        match domain3 res pts tris with
+        | some why => s!"skip {why}"
+        | none =>
+        match o with
         | "panic" :: _ => "fail panic"
         | _ => match run (do
-            let org ← pv3; let sc ← pfo; let parts ← pparts
+            let org ← pv3o; let sc ← pfo; let parts ← pparts
             let rec hulls : Nat → P (List (List (V3 Float) × List (Nat × Nat × Nat)))
               | 0 => pure []
               | n+1 => do let h ← pmesh; let r ← hulls n; pure (h :: r)
             let hs ← hulls parts.length
             pure (org, sc, parts, hs)) o with
-          | some (org, sc, parts, hs) => hullOracle org sc parts hs
+          | some (org, sc, parts, hs) => (match gridSanity3 res org sc parts.flatten with
+            | some bad => bad
+            | none => hullOracle org sc parts hs)
           | none => "fail unparsable-output" }
   | _ => none
 
